@@ -13,8 +13,10 @@ class EchoOrigin:
     def __init__(self, port=None):
         self.port = port or bb.free_port()
         self.ls = None
-        self.conns = []
+        self.threads = []
         self.accepted = 0
+        self.epoch = 0
+        self.dead = False
         self.lock = threading.Lock()
         self.start()
 
@@ -31,23 +33,38 @@ class EchoOrigin:
                     raise
                 time.sleep(0.05)
         ls.listen(64)
+        self.epoch += 1
         self.ls = ls
-        threading.Thread(target=self._run, args=(ls,), daemon=True).start()
+        self.acceptor = threading.Thread(target=self._run, args=(ls, self.epoch), daemon=True)
+        self.acceptor.start()
 
-    def _run(self, ls):
-        while True:
+    def _run(self, ls, epoch):
+        ls.settimeout(0.05)
+        while self.epoch == epoch and not self.dead:
             try:
                 s, _ = ls.accept()
+            except socket.timeout:
+                continue
             except OSError:
-                return
+                break
             with self.lock:
                 self.accepted += 1
-                self.conns.append(s)
-            threading.Thread(target=self._echo, args=(s,), daemon=True).start()
+            th = threading.Thread(target=self._echo, args=(s, epoch), daemon=True)
+            self.threads.append(th)
+            th.start()
+        ls.close()
 
-    def _echo(self, s):
+    def _echo(self, s, epoch):
+        import select, struct
         try:
             while True:
+                if self.dead or self.epoch != epoch:
+                    # the origin process was killed: its connections are reset
+                    s.setsockopt(socket.SOL_SOCKET, socket.SO_LINGER, struct.pack("ii", 1, 0))
+                    break
+                r, _, _ = select.select([s], [], [], 0.05)
+                if not r:
+                    continue
                 d = s.recv(65536)
                 if not d:
                     break
@@ -61,19 +78,15 @@ class EchoOrigin:
 
     def stop(self):
         """listener gone and every open connection reset, as when the origin process is killed"""
-        import struct
-        try:
-            self.ls.close()
-        except OSError:
-            pass
-        with self.lock:
-            for s in self.conns:
-                try:
-                    s.setsockopt(socket.SOL_SOCKET, socket.SO_LINGER, struct.pack("ii", 1, 0))
-                    s.close()
-                except OSError:
-                    pass
-            self.conns = []
+        self.dead = True
+        self.acceptor.join(2)
+        for th in self.threads:
+            th.join(2)
+        self.threads = []
+
+    def restart(self):
+        self.dead = False
+        self.start()
 
 
 class World:
@@ -111,6 +124,8 @@ class World:
         self.rlock = threading.Lock()
         self.t0 = time.time()
         self.bg_stop = False
+        self.last_probe = {}
+        self.up_since = {}
 
     def now(self):
         return round(time.time() - self.t0, 3)
@@ -173,7 +188,9 @@ class World:
         if c:
             c.close()
         dt = round(time.time() - t, 3)
-        self.rec({"ev": "probe", "kind": kind, "phase": phase, "outcome": out, "seconds": dt, "why": why})
+        r = {"ev": "probe", "kind": kind, "phase": phase, "outcome": out, "seconds": dt, "why": why}
+        self.rec(r)
+        self.last_probe[kind] = r
         return out
 
     def background_ok(self, period=0.25):
@@ -227,13 +244,14 @@ class World:
 
     def back(self, kind, how):
         if kind == "direct":
-            self.origin_direct.start()
+            self.origin_direct.restart()
         else:
             k = "lb1" if kind == "lb" else kind
             if how == "stall":
                 os.kill(self.up[k]["proxy"].p.pid, signal.SIGCONT)
             else:
                 self.start_up(k)
+        self.up_since[kind] = time.time()
         self.rec({"ev": "restored", "kind": kind, "how": how})
 
     def until_ok(self, kind, phase, limit, period=0.5, need=2):
@@ -252,7 +270,7 @@ class World:
                 time.sleep(period)
         return None
 
-    def hijack(self, kind, mode, probes=3):
+    def hijack(self, kind, mode, probes=3, probe_fn=None):
         """while the upstream is gone something else answers on its port: closes at once / sends garbage / accepts and stays silent"""
         k = "lb1" if kind == "lb" else kind
         port = self.origin_direct.port if kind == "direct" else self.up[k]["port"]
@@ -296,7 +314,7 @@ class World:
         th.start()
         self.rec({"ev": "fault", "kind": kind, "how": "hijack-" + mode})
         for _ in range(probes):
-            self.probe(kind, "hijack-" + mode, timeout=2.0)
+            (probe_fn or self.probe)(kind, "hijack-" + mode, timeout=2.0)
         stop[0] = True
         th.join()
         ls.close()
